@@ -622,6 +622,13 @@ def fam_cluster(tier, base):
             d["every"] = 1
         elif d["mode"] == "crash" and q:
             continue
+        # "the caller gives up before call k": every placement for the operations with few calls, a sample for deployments
+        if d["mode"] == "cancel" and d["op"]["kind"] == "create" and not (d["op"]["strategy"] == "AUTO" and d["op"]["req"] == "b"):
+            if q:
+                continue
+            d["every"] = 3
+        elif d["mode"] == "cancel" and d["op"]["kind"] == "create" and q:
+            d["every"] = 2
         sel.append(json.dumps(d))
     with open(inputs, "w") as f:
         f.write("\n".join(sel) + "\n")
@@ -632,7 +639,7 @@ def fam_cluster(tier, base):
     with open(rin, "w") as f:
         for x in sel:
             d = json.loads(x)
-            if d["op"]["kind"] in ("create", "lambda") and d["mode"] != "crash" and (not q or (d["op"]["req"] == "b" and d["nodes"][0]["kind"] == "plain2")):
+            if d["op"]["kind"] in ("create", "lambda") and d["mode"] not in ("crash", "cancel") and (not q or (d["op"]["req"] == "b" and d["nodes"][0]["kind"] == "plain2")):
                 d["every"] = 3 if d["op"]["kind"] == "create" else 1
                 f.write(json.dumps(d) + "\n")
     verif.run_driver_sharded(b, "TestClusterFaults", rin, rtrace, shards=14, timeout=7000, env={"VERIF_STORE": "redis"})
